@@ -75,6 +75,7 @@ def check(run):
     ctx(R)
     from . import C12 as _C12
     _C12.compression_writers(R, 'C11.onectx')
+    C06.one_context(R, 'C11.onectx')
     C03.rsv1gate(R, RID='C11.wireorder')
 
 
